@@ -385,7 +385,7 @@ func runCheck(o checkOpts) *checkResult {
 		res.exit = 1
 	}
 	if !o.noEvidence && o.only == "" {
-		writeEvidence(w, o, seed, recs, samples, nProof, nDis+len(knownHit), nCover, len(res.violations), len(knownHit), time.Since(t0).Seconds(), solveSecs, mine, results)
+		writeEvidence(w, o, seed, recs, samples, nProof-len(knownHit), nDis, nCover, len(res.violations), len(knownHit), time.Since(t0).Seconds(), solveSecs, mine, results)
 	}
 	say("property %s: %d obligations, %d discharged, %d known findings, %d cover checks, %d violations, %.1fs (load %.1fs, gen %.1fs, solve %.1fs)",
 		o.prop, nProof, nDis, len(knownHit), nCover, len(res.violations), time.Since(t0).Seconds(), w.loadSecs, genSecs, solveSecs)
